@@ -27,7 +27,7 @@ FILE_FAMILIES = {
 class World:
     """uid <-> text table for one run."""
 
-    def __init__(self, family="plain", files="plain", init_kind="base", salt=0):
+    def __init__(self, family="plain", files="plain", init_kind="base", salt=0, base_lines=2):
         self.family = family
         self.salt = salt
         self.files = FILE_FAMILIES[files]
@@ -35,8 +35,8 @@ class World:
         self.root = {}      # uid -> (root uid, revision)
         self.text2line = {}  # rendered text (no EOL) -> (uid, ws)
         if init_kind == "base":
-            self.fresh(1, None)
-            self.fresh(2, None)
+            for u in range(1, base_lines + 1):
+                self.fresh(u, None)
 
     # ---- uids
     def fresh(self, uid, derived_from):
